@@ -28,7 +28,7 @@ from .common import Check, MachineryError, SPECS, run_tlc, scratch
 
 PROP = 'C08'
 NONE = '-'
-INIT_FILE = {'ch': ['a', 'b', 'c'], 'def': 'a', 'x': False, 'lr': ['2', '5', '8']}
+INIT_FILE = {'ch': ['a', 'b', 'c'], 'def': 'a', 'x': False, 'lr': ['2', '5', '8'], 'sch': ['a', 'b', 'c', 'd']}
 DKEY = {'popt': 'popt', 'xopt': 'xopt', 'dl': 'default_library', 'subdl': 'sub:default_library', 'subpopt': 'sub:popt',
         'subflag': 'sub:flag', 'level': 'level', 'arr': 'arr'}
 
@@ -54,6 +54,11 @@ def write_option_file(src: Path, name: str, f: T.Dict[str, T.Any]) -> None:
     if f['x']:
         txt += "option('xopt', type: 'string', value: 'xd')\n"
     (src / name).write_text(txt)
+    sub = src / 'subprojects' / 'sub'
+    if sub.is_dir():
+        (sub / name).write_text("option('popt', type: 'combo', choices: [%s], value: 'd', yield: true)\n"
+                                "option('flag', type: 'boolean', value: false, yield: true)\n"
+                                % ', '.join("'%s'" % c for c in sorted(f['sch'])))
 
 
 def make_project(src: Path, optname: str) -> None:
@@ -89,6 +94,8 @@ def edit_file(f: T.Dict[str, T.Any], e: T.Dict[str, T.Any]) -> T.Dict[str, T.Any
         f['def'] = e['def']
     elif e['t'] == 'range':
         f['lr'] = list(e['ch'])
+    elif e['t'] == 'subchoices':
+        f['sch'] = list(e['ch'])
     else:
         raise MachineryError('unknown edit ' + repr(e))
     return f
@@ -133,7 +140,7 @@ def recorded_cmdline(b: Path) -> T.Dict[str, str]:
 def observe(d: Path, env: T.Dict[str, str], out: str, configuring: bool) -> T.Dict[str, T.Any]:
     """project the persisted state of the build directory"""
     obs: T.Dict[str, T.Any] = {'skip': False, 'exists': False, 'v': NONE, 'ch': [], 'x': NONE, 'dl': NONE, 'subdl': NONE,
-                               'sp': NONE, 'sf': NONE, 'lv': NONE, 'ar': NONE, 'cmd': {k: NONE for k in DKEY}, 'mv': NONE, 'msp': NONE, 'msubdl': NONE,
+                               'sp': NONE, 'sf': NONE, 'lv': NONE, 'ar': NONE, 'sch': [], 'cmd': {k: NONE for k in DKEY}, 'mv': NONE, 'msp': NONE, 'msubdl': NONE,
                                'msf': NONE}
     b = d / 'build'
     obs['cmd'] = recorded_cmdline(b)
@@ -149,6 +156,7 @@ def observe(d: Path, env: T.Dict[str, str], out: str, configuring: bool) -> T.Di
         raise MachineryError('meson introspect printed no JSON:\n' + txt[-800:]) from e
     obs['v'] = intro['popt']['value']
     obs['ch'] = sorted(intro['popt']['choices'])
+    obs['sch'] = sorted(intro['sub:popt']['choices'])
     obs['x'] = intro['xopt']['value'] if 'xopt' in intro else NONE
     obs['dl'] = intro['default_library']['value']
     obs['lv'] = str(intro['level']['value'])
@@ -224,7 +232,7 @@ def replay_history(job: T.Tuple[str, T.List[T.Dict[str, T.Any]], int]) -> T.Dict
                 raise MachineryError('unknown action ' + a)
             if a == 'Edit':
                 obs = {'skip': True, 'exists': False, 'v': NONE, 'ch': [], 'x': NONE, 'dl': NONE, 'subdl': NONE, 'sp': NONE,
-                       'sf': NONE, 'lv': NONE, 'ar': NONE, 'cmd': {k: NONE for k in DKEY}, 'mv': NONE, 'msp': NONE, 'msubdl': NONE, 'msf': NONE}
+                       'sf': NONE, 'lv': NONE, 'ar': NONE, 'sch': [], 'cmd': {k: NONE for k in DKEY}, 'mv': NONE, 'msp': NONE, 'msubdl': NONE, 'msf': NONE}
             else:
                 try:
                     obs = observe(d, env, out, configuring and rc == 0)
@@ -257,7 +265,7 @@ def norm_event(e: T.Dict[str, T.Any]) -> T.Dict[str, T.Any]:
 def hist_id(h: T.List[T.Dict[str, T.Any]]) -> str:
     def one(e: T.Dict[str, T.Any]) -> str:
         if e['a'] == 'Edit':
-            return 'Edit:' + e['e']['t'] + (''.join(e['e']['ch']) + '/' + e['e']['def'] if e['e']['t'] in ('choices', 'default', 'range') else '')
+            return 'Edit:' + e['e']['t'] + (''.join(e['e']['ch']) + '/' + e['e']['def'] if e['e']['t'] in ('choices', 'default', 'range', 'subchoices') else '')
         if e['a'] == 'ConfigureU':
             return 'U:' + e['k']
         return e['a'] + ''.join(f':{k}={v}' for k, v in e['D'])
@@ -393,7 +401,7 @@ def main(chk: Check) -> None:
             chk.nontriv(c['id'])
     for c in done[:: max(1, len(done) // 4)][:4]:
         chk.sample({'history': c['id'], 'steps': [{'a': e['a'], 'D': e['D'], 'rc': e['rc'],
-                                                    'obs': {k: e['obs'][k] for k in ('exists', 'v', 'ch', 'x', 'dl', 'subdl', 'sp', 'sf', 'lv', 'ar', 'cmd')}}
+                                                    'obs': {k: e['obs'][k] for k in ('exists', 'v', 'ch', 'x', 'dl', 'subdl', 'sp', 'sf', 'lv', 'ar', 'sch', 'cmd')}}
                                                    for e in c['ev']]})
     judge(chk, done, 'A')
     chk.extra['histories_replayed'] = len(done)
